@@ -13,9 +13,9 @@ RULE = ("random programs (1-3 functions, 1-8 blocks, empty blocks, self-loops, 0
         "third ill-formed (arbitrary guards, unconditional edges among several, ill-sorted expressions, stores and "
         "loads of 1-bit values, scalars holding a constant of another width, duplicate instruction indices, invalid "
         "start locations).  Every step of executor::Driver::step over memory::paged::Memory is compared (location, "
-        "changed scalars, memory window of every store, watch windows at the end) with Drv.step (model) and with the "
+        "changed scalars, memory window of every store, address of every load, watch windows at the end) with Drv.step (model) and with the "
         "unique Sem.Step successor (specification; error kind must be one the specification names).  distinct = "
-        "distinct request line; non-trivial = the run has >= 3 steps and executes a store, a load or a guarded edge")
+        "distinct request line; non-trivial = the run has >= 3 executed steps and executes a store or a load or traverses an edge")
 TRUSTED = [
     "specification: FalconModel/Sem.lean (value / OpSem / Step) over C04's BitVec operators and the byte-array memory",
     "memory: State.mem is the byte array that property C08 shows falcon's paged memory to be",
@@ -67,6 +67,6 @@ def nontrivial(c):
     if len(impl) < 4:                  # >= 3 executed steps + the terminal entry
         return False
     done = impl[:-1]
-    stored = any(s.split(" ")[-1].startswith("m0x") for s in done)
-    edged = any(":e" in s.split(" ")[0] for s in done)
-    return stored or edged or "(load " in c.req
+    mem = any(s.split(" ")[-1].startswith(("m0x", "l0x")) for s in done)     # a store or a load was executed
+    edged = any(":e" in s.split(" ")[0] for s in done)                        # an edge was traversed
+    return mem or edged
